@@ -3,6 +3,7 @@ C01-C08, C10 (and the trace part of C11).  The spec-side exploration (Sched.tla 
 universes, engine E2) is added to the same evidence by harness/props_mc.py."""
 import glob
 import json
+import re
 import os
 import random
 
@@ -14,12 +15,12 @@ FIXTURES = sorted(glob.glob(os.path.join(os.environ.get("VERIF_REPO", "/repo"), 
 
 # profile name, quick count, thorough count
 PLAN = {
-    "C01": [("chain_subslot", 70, 2500), ("teams_alts", 30, 1000), ("alap_profile", 20, 800), ("alap_pack", 40, 1500)],
-    "C02": [("calendars", 90, 3500), ("dst_weekend", 40, 1500), ("group_hours", 25, 800)],
-    "C03": [("chain_subslot", 50, 2000), ("teams_alts", 50, 2000), ("alap_profile", 20, 800), ("limits_profile", 40, 1500), ("alap_pack", 30, 1000)],
+    "C01": [("chain_subslot", 70, 2500), ("teams_alts", 30, 1000), ("alap_profile", 20, 800), ("alap_pack", 40, 1500), ("mixed_subslot", 40, 1500)],
+    "C02": [("calendars", 90, 3500), ("dst_weekend", 40, 1500), ("group_hours", 25, 800), ("year_end", 30, 1200)],
+    "C03": [("chain_subslot", 50, 2000), ("teams_alts", 50, 2000), ("alap_profile", 20, 800), ("limits_profile", 40, 1500), ("alap_pack", 30, 1000), ("mixed_subslot", 20, 800)],
     "C04": [("dags", 100, 4000), ("alap_profile", 40, 1500), ("container_gate", 15, 600), ("dup_leaf_ids", 15, 600), ("dup_alap", 15, 600), ("dags_alap", 30, 1000), ("staged_containers", 30, 1000), ("ms_bounds", 20, 800), ("gap_bounds", 30, 1000)],
-    "C05": [("limits_profile", 110, 4000)],
-    "C06": [("chain_subslot", 60, 2000), ("alap_profile", 40, 1500), ("dags", 50, 1500), ("alap_pack", 30, 1000), ("ms_bounds", 40, 1500)],
+    "C05": [("limits_profile", 110, 4000), ("year_end", 25, 1000)],
+    "C06": [("chain_subslot", 60, 2000), ("alap_profile", 40, 1500), ("dags", 50, 1500), ("alap_pack", 30, 1000), ("ms_bounds", 40, 1500), ("mixed_subslot", 20, 800)],
     "C07": [("core_dialect", 110, 5000), ("container_gate", 25, 1000), ("gap_bounds", 20, 800)],
     "C08": [("core_dialect", 60, 2500), ("alap_profile", 40, 1500), ("calendars", 20, 1000), ("dup_alap", 20, 800), ("dags_alap", 40, 1500), ("staged_containers", 30, 1000), ("gap_bounds", 30, 1000)],
     "C10": [("trees", 60, 2500), ("dags", 30, 1200)],
@@ -133,7 +134,7 @@ def is_violation(prop, rec, v):
                       "why": "core-dialect project: the implementation's step sequence / final dates differ from the reference list schedule"}
     if prop == "C02" and not v.dialect["aligned"]:
         return False, None      # class of known finding KF-C02-misaligned (replayed separately)
-    hits = v.of(prop)
+    hits = [h for h in v.of(prop) if "[KF-" not in str(h[2])]      # classes of open known findings are decided by the spec and reported apart
     if hits:
         return True, {"trace": v.id, "failed": [list(h[:3]) + [str(h[3])[:200]] for h in hits[:5]]}
     return False, None
@@ -205,6 +206,7 @@ def check(prop, tier, replay=None):
         vs, res = e1.validate(recs, workers=16)
         run.add_tlc(res)
         run.cov["traces_validated_against_impl"] += len(vs)
+        open_known = {kf["id"] for kf in load_known() if kf["property"] == prop and kf["status"] == "open"}
         absdiff = 0
         for r in recs:
             if "project" not in r:
@@ -220,6 +222,13 @@ def check(prop, tier, replay=None):
             if nontrivial(prop, r):
                 run.nontrivial(phash(r["project"]))
             viol, summary = is_violation(prop, r, v)
+            for h in v.of(prop):
+                m = re.search(r"\[(KF-[A-Za-z0-9-]+)\]", str(h[2]))
+                if m and m.group(1) in open_known:
+                    run.notes.setdefault("traces_in_class_of_open_known_finding", {}).setdefault(m.group(1), []).append(r["id"])
+                elif m and not viol:
+                    # the spec names a finding class that known_findings.json does not list as open: an ordinary violation
+                    viol, summary = True, {"trace": v.id, "failed": [list(h[:3]) + [str(h[3])[:200]]]}
             if viol:
                 job = by_id.get(r["id"].split("#sc")[0], {})
                 run.violation(r["id"], {"id": r["id"].split("#sc")[0], "text": job.get("text"), "abstract": job.get("abstract"),
